@@ -1,6 +1,8 @@
 import QProofs.C16
 import QProofs.C16Sum
 import QProofs.C16Cond
+import QProofs.C16Gen
+import QProofs.C16Ens
 import Mathlib.Tactic.FieldSimp
 /-!
 # C16 — property theorems (index maps, constructor normalisation)
@@ -296,5 +298,124 @@ example : marginalRaw [1/16, 1/16, 1/8, 1/4, 1/16, 3/16, 1/8, 1/8] [2, 2, 2] [0,
     = ([2, 2], [3/16, 5/16, 3/16, 5/16]) := by decide +kernel
 example : conditionalRaw [1/16, 1/16, 1/8, 1/4, 1/16, 3/16, 1/8, 1/8] [2, 2, 2] [0, 2] [1, 0]
     = ([2], [1/16, 1/8]) := by decide +kernel
+
+/-! ## the definitions regenerated from /repo's source on this run (`QGen/C16.lean`)
+
+`harness/c16_translate.py` rewrites `QGen.C16.multiBody`, `serialBody`, their initial states, iteration / result directions,
+the length guard and the numeric defaults from quara/utils/index_util.py, quara/math/probability.py and
+quara/objects/multinomial_distribution.py on every run.  The theorems below are about those generated definitions: a source edit
+that changes the arithmetic, a direction, the guard, a default or a tolerance makes one of them fail to check. -/
+
+/-- C16.j the generated `index_multi_dimensional_from_index_serial` computes the model's multi-index, for every shape and serial
+index the real function accepts (Python raises ZeroDivisionError exactly where the model returns `none`: `multi_none_iff`). -/
+theorem generated_multi_agrees (lens : List Nat) (s : Nat) (mi : List Nat)
+    (h : multiFromSerial lens s = some mi) :
+    QGen.C16.multiFromSerial (lens.map Int.ofNat) (Int.ofNat s) = mi.map Int.ofNat := by
+  unfold multiFromSerial at h
+  split at h
+  · injection h with h; subst h; exact gen_multiFromSerial lens s
+  · cases h
+
+/-- C16.j the generated `index_serial_from_index_multi_dimensional` is the model's, including the ValueError branch. -/
+theorem generated_serial_agrees (lens idx : List Nat) :
+    QGen.C16.serialFromMulti (lens.map Int.ofNat) (idx.map Int.ofNat)
+      = (serialFromMulti lens idx).map Int.ofNat :=
+  gen_serialFromMulti lens idx
+
+/-- C16.b on the generated code: serial → multi → serial is the identity on `[0, ∏ lens)`, every shape with positive sizes. -/
+theorem generated_serial_of_multi (lens : List Nat) (hpos : ∀ l ∈ lens, 0 < l) (s : Nat) (hs : s < prod lens) :
+    QGen.C16.serialFromMulti (lens.map Int.ofNat)
+        (QGen.C16.multiFromSerial (lens.map Int.ofNat) (Int.ofNat s)) = some (Int.ofNat s) := by
+  have hm : multiFromSerial lens s = some (multiRevLoop lens.reverse s).reverse := by
+    unfold multiFromSerial; rw [if_pos ((all_pos_iff lens).2 hpos)]
+  rw [generated_multi_agrees lens s _ hm, generated_serial_agrees,
+    serial_of_multi_of_serial_lt lens s _ hm hs]
+  rfl
+
+/-- C16.c on the generated code: multi → serial → multi is the identity on in-range multi-indices and the serial index is in range. -/
+theorem generated_multi_of_serial (lens idx : List Nat) (hlen : lens.length = idx.length)
+    (hr : ∀ p ∈ lens.zip idx, p.2 < p.1) :
+    ∃ s : Nat, QGen.C16.serialFromMulti (lens.map Int.ofNat) (idx.map Int.ofNat) = some (Int.ofNat s) ∧ s < prod lens ∧
+      QGen.C16.multiFromSerial (lens.map Int.ofNat) (Int.ofNat s) = idx.map Int.ofNat := by
+  obtain ⟨s, h1, h2, h3⟩ := multi_of_serial_of_multi lens idx hlen hr
+  exact ⟨s, by rw [generated_serial_agrees, h1]; rfl, h2, generated_multi_agrees lens s idx h3⟩
+
+/-- the generated defaults and tolerances are the ones the model (and the statement of the property: "the documented zero threshold")
+uses: validate_prob_dist's default eps 1e-8 compared absolutely (rtol 0) at both sites, the constructor's default zero threshold 1e-8,
+first validation without the sum test, second with it. -/
+theorem generated_constants :
+    QGen.C16.validateEpsDefault = epsValidate ∧ QGen.C16.validateNegRtol = 0 ∧ QGen.C16.validateSumRtol = 0 ∧
+    QGen.C16.epsZeroDefault = mkRat 1 100000000 ∧
+    QGen.C16.ctorValidateSumFirst = false ∧ QGen.C16.ctorValidateSumSecond = true := by
+  decide +kernel
+
+example : QGen.C16.multiFromSerial [2, 3, 4] 17 = [1, 1, 1] := by decide
+example : QGen.C16.serialFromMulti [2, 3, 4] [1, 1, 1] = some 17 := by decide
+example : QGen.C16.serialFromMulti [2, 3, 4] [1, 1] = none := by decide
+example : (∀ l ∈ [2, 3, 4], 0 < l) ∧ 17 < prod [2, 3, 4] := by decide
+
+/-! ## state ensembles produced by measurements index states and probabilities with the same layout -/
+
+/-- C16.k `StateEnsemble.state(outcome)` with a tuple outcome of an ensemble whose shape is `shape2 ++ shape1` (old ensemble's
+shape followed by the instrument's shape, as `_compose_qoperations_MProcess_StateEnsemble` sets it) and whose members were
+appended block by block (`states.extend(states_local)`, one block of `∏ shape1` members per old member): the member at
+`mi2 ++ mi1` is member `mi1` of the block produced from old member `mi2`.  Any number of earlier measurements, any shapes. -/
+theorem ensemble_after_measurement_layout {α β : Type} (old : List α) (f : α → List β)
+    (shape2 shape1 mi2 mi1 : List Nat)
+    (h2 : shape2.length = mi2.length) (h1 : shape1.length = mi1.length)
+    (hr2 : ∀ p ∈ shape2.zip mi2, p.2 < p.1) (hr1 : ∀ p ∈ shape1.zip mi1, p.2 < p.1)
+    (hold : old.length = prod shape2) (hblock : ∀ x ∈ old, (f x).length = prod shape1) :
+    ∃ (i j : Nat) (hi : i < old.length), serialFromMulti shape2 mi2 = some i ∧ serialFromMulti shape1 mi1 = some j ∧
+      ensGet (extendLoop old f) (shape2 ++ shape1) (mi2 ++ mi1) = (f old[i])[j]? := by
+  have hi : val (shape2.reverse.zip mi2.reverse) < old.length := hold ▸ val_lt' shape2 mi2 h2 hr2
+  have hj := val_lt' shape1 mi1 h1 hr1
+  refine ⟨_, _, hi, serial_some shape2 mi2 h2, serial_some shape1 mi1 h1, ?_⟩
+  unfold ensGet extendLoop
+  rw [serial_some _ _ (by simp [h1, h2]), serial_append shape2 shape1 mi2 mi1 h2 h1]
+  exact flatMap_block old f (prod shape1) hblock _ _ hi hj
+
+/-- C16.k states and probabilities of such an ensemble are extended in lock step (`states.extend(states_local)`,
+`ps.extend(ps_local)` with blocks of equal length), so the tuple outcome `mi2 ++ mi1` addresses in BOTH lists the entry that
+local outcome `mi1` contributed for old member `mi2`: same layout. -/
+theorem ensemble_states_probs_same_layout {α β γ : Type} (old : List α) (fs : α → List β) (fp : α → List γ)
+    (shape2 shape1 mi2 mi1 : List Nat)
+    (h2 : shape2.length = mi2.length) (h1 : shape1.length = mi1.length)
+    (hr2 : ∀ p ∈ shape2.zip mi2, p.2 < p.1) (hr1 : ∀ p ∈ shape1.zip mi1, p.2 < p.1)
+    (hold : old.length = prod shape2)
+    (hs : ∀ x ∈ old, (fs x).length = prod shape1) (hp : ∀ x ∈ old, (fp x).length = prod shape1) :
+    ∃ (i j : Nat) (hi : i < old.length),
+      ensGet (extendLoop old fs) (shape2 ++ shape1) (mi2 ++ mi1) = (fs old[i])[j]? ∧
+      ensGet (extendLoop old fp) (shape2 ++ shape1) (mi2 ++ mi1) = (fp old[i])[j]? := by
+  obtain ⟨i, j, hi, e2, e1, hS⟩ := ensemble_after_measurement_layout old fs shape2 shape1 mi2 mi1 h2 h1 hr2 hr1 hold hs
+  obtain ⟨i', j', hi', e2', e1', hP⟩ := ensemble_after_measurement_layout old fp shape2 shape1 mi2 mi1 h2 h1 hr2 hr1 hold hp
+  have hii : i = i' := Option.some.inj (e2.symm.trans e2')
+  have hjj : j = j' := Option.some.inj (e1.symm.trans e1')
+  subst hii; subst hjj
+  exact ⟨i, j, hi, hS, hP⟩
+
+/-- C16.k product of two ensembles (`_tensor_product_StateEnsemble_StateEnsemble`: nested loops, shape = shape1 ++ shape2):
+the member at `mi1 ++ mi2` is built from member `mi1` of the first and member `mi2` of the second ensemble. -/
+theorem ensemble_product_layout {α β γ : Type} (xs : List α) (ys : List β) (g : α → β → γ)
+    (shape1 shape2 mi1 mi2 : List Nat)
+    (h1 : shape1.length = mi1.length) (h2 : shape2.length = mi2.length)
+    (hr1 : ∀ p ∈ shape1.zip mi1, p.2 < p.1) (hr2 : ∀ p ∈ shape2.zip mi2, p.2 < p.1)
+    (hx : xs.length = prod shape1) (hy : ys.length = prod shape2) :
+    ∃ (i j : Nat) (hi : i < xs.length) (hj : j < ys.length),
+      serialFromMulti shape1 mi1 = some i ∧ serialFromMulti shape2 mi2 = some j ∧
+      ensGet (nestedLoop xs ys g) (shape1 ++ shape2) (mi1 ++ mi2) = some (g xs[i] ys[j]) := by
+  obtain ⟨i, j, hi, e1, e2, h⟩ := ensemble_after_measurement_layout xs (fun x => ys.map (g x)) shape1 shape2 mi1 mi2
+    h1 h2 hr1 hr2 hx (by intro x _; simp [hy])
+  have hj : j < ys.length := by
+    have := val_lt' shape2 mi2 h2 hr2
+    rw [serial_some shape2 mi2 h2] at e2
+    have hj' := Option.some.inj e2
+    omega
+  refine ⟨i, j, hi, hj, e1, e2, ?_⟩
+  unfold nestedLoop; unfold extendLoop at h
+  rw [h]; simp [hj]
+
+example : ensGet (extendLoop [10, 20] fun x => [x, x + 1, x + 2]) ([2] ++ [3]) ([1] ++ [2]) = some 22 := by decide
+example : ensGet (nestedLoop [1, 2, 3] [10, 20] fun a b => a + b) ([3] ++ [2]) ([2] ++ [1]) = some 23 := by decide
+example : (∀ p ∈ [2].zip [1], p.2 < p.1) ∧ (∀ p ∈ [3].zip [2], p.2 < p.1) ∧ [10, 20].length = prod [2] := by decide
 
 end QM.C16
